@@ -110,7 +110,10 @@ class IdentityLinearOperator(ConstantDiagLinearOperator):
         self: Float[LinearOperator, "... #M #N"],
         other: Union[Float[torch.Tensor, "... #M #N"], Float[LinearOperator, "... #M #N"]],
     ) -> Float[LinearOperator, "... M N"]:
-        return other
+        # the elementwise product with the identity keeps the diagonal of `other` and nothing else
+        from linear_operator.operators.diag_linear_operator import DiagLinearOperator
+
+        return DiagLinearOperator(self._diag * other._diagonal())
 
     def _permute_batch(self, *dims: int) -> LinearOperator:
         batch_shape = self.diag_values.permute(*dims, -1).shape[:-1]
